@@ -25,6 +25,7 @@ var jsProps = []string{"foo_", "bar_", "a_", "x2_", "baz_"}
 // runs inside the program (so it passes through esbuild like user code)
 const progPrelude = `var $g = globalThis;
 $g.$v = function (x) { return typeof x === "function" ? (x.$id || "fn") : x; };
+$g.$s = function (f, id) { try { f.$id = id; } catch (e) {} };
 $g.$q = function (tag, f) { var v; try { v = f(); } catch (e) { v = "!" + (e && e.constructor && e.constructor.name); } return $p(tag, v); };
 $g.React = { createElement: function (t, p) { return "<" + $v(t) + " " + (p ? $v(p.x) : "") + ">"; } };
 `
@@ -49,23 +50,25 @@ type jscope struct {
 	all    []string // every name declared here, for picking references
 	script bool     // top scope of a classic script
 	params map[string]bool
-	frozen bool     // module top level after its declaration prefix: no later lexical declarations (bundling turns top-level let into var, which would change TDZ errors)
+	frozen bool // module top level after its declaration prefix: no later lexical declarations (bundling turns top-level let into var, which would change TDZ errors)
 }
 
 type jsgen struct {
-	r        *Rng
-	id       int
-	tag      int
-	module   bool // ESM (strict, no with)
-	jsx      bool
-	props    bool
-	noEval   bool
-	features map[string]int
-	budget   int
+	r           *Rng
+	id          int
+	tag         int
+	module      bool // ESM (strict, no with)
+	jsx         bool
+	props       bool
+	noEval      bool
+	noWith      bool
+	noFnInBlock bool
+	features    map[string]int
+	budget      int
 }
 
 func (g *jsgen) newID() string { g.id++; return fmt.Sprintf("\"d%d\"", g.id) }
-func (g *jsgen) newTag() int    { g.tag++; return g.tag }
+func (g *jsgen) newTag() int   { g.tag++; return g.tag }
 func (g *jsgen) name() string {
 	if g.r.Chance(70) {
 		return jsPool[g.r.Intn(9)]
@@ -103,7 +106,7 @@ func (s *jscope) canLex(n string) bool {
 	}
 	return !s.frozen && !s.lex[n] && !s.vars[n]
 }
-func (s *jscope) addLex(n string)      { s.lex[n] = true; s.all = append(s.all, n) }
+func (s *jscope) addLex(n string) { s.lex[n] = true; s.all = append(s.all, n) }
 func (s *jscope) canVar(n string) bool {
 	if t := s.varTarget(); t.parent == nil && t.script && scriptTopExclude[n] {
 		return false
@@ -143,6 +146,7 @@ type jctx struct {
 	thisOK  bool
 	strict  bool
 	inClass bool
+	inWith  bool // inside a with body (same function): no function declarations there
 }
 
 func (g *jsgen) refName(c *jctx) string {
@@ -171,6 +175,12 @@ func (g *jsgen) probe(c *jctx, ind string) string {
 					break
 				}
 				n = nested[g.r.Intn(len(nested))]
+			}
+			if !g.module {
+				// only names that also occur as identifiers in the program text (a name that
+				// exists in an eval string alone is invisible to any renamer)
+				cand := append(append([]string{}, c.sc.visible()...), jsGlobals...)
+				n = cand[g.r.Intn(len(cand))]
 			}
 			g.features["direct-eval"]++
 			return fmt.Sprintf("%s$q(%d, () => eval(\"$v(%s)\"));\n", ind, g.newTag(), n)
@@ -279,12 +289,21 @@ func (g *jsgen) stmt(c *jctx, depth int, ind string) string {
 			}
 			return fmt.Sprintf("%svar %s = %s;\n", ind, n, g.newID())
 		case 3: // function declaration + call
-			if deep {
+			if deep || (c.inWith && !c.sc.isFunc) {
 				continue
+			}
+			if !g.module && !c.strict && !c.sc.isFunc && g.noFnInBlock {
+				continue // a sloppy function declaration in a block is a function-in-block
 			}
 			n := g.capOrName()
 			if !c.sc.canLex(n) || !c.sc.canVar(n) {
 				continue
+			}
+			if !g.module && c.inClass && !c.sc.isFunc {
+				continue // block function in class (strict) code of a sloppy script: recorded finding
+			}
+			if !g.module && !c.strict && !c.sc.isFunc && c.sc.varTarget().params[n] {
+				continue // Annex B.3.3 parameter case: known finding, replayed from the fixed corpus
 			}
 			if c.sc.isFunc {
 				c.sc.addVar(n)
@@ -295,7 +314,7 @@ func (g *jsgen) stmt(c *jctx, depth int, ind string) string {
 			ps, pd, args := g.params()
 			id := g.newID()
 			b := g.funcBody(c, ps, depth, ind, false, nil, false)
-			return fmt.Sprintf("%sfunction %s(%s) {\n%s%s}\n%s%s.$id = %s;\n%s%s(%s);\n", ind, n, pd, b, ind, ind, n, id, ind, n, args)
+			return fmt.Sprintf("%sfunction %s(%s) {\n%s%s}\n%s$s(%s, %s);\n%s%s(%s);\n", ind, n, pd, b, ind, ind, n, id, ind, n, args)
 		case 4: // named function expression (self binding)
 			if deep {
 				continue
@@ -307,7 +326,7 @@ func (g *jsgen) stmt(c *jctx, depth int, ind string) string {
 			inner.addLex(n)
 			ic := &jctx{sc: inner, strict: c.strict, inClass: c.inClass}
 			b := g.funcBody(ic, ps, depth, ind, false, nil, false)
-			return fmt.Sprintf("%s(function %s(%s) {\n%s  %s.$id = %s;\n%s%s})(%s);\n", ind, n, pd, ind, n, g.newID(), b, ind, args)
+			return fmt.Sprintf("%s(function %s(%s) {\n%s  $s(%s, %s);\n%s%s})(%s);\n", ind, n, pd, ind, n, g.newID(), b, ind, args)
 		case 5: // arrow with default parameter reading an outer name
 			if deep {
 				continue
@@ -335,7 +354,7 @@ func (g *jsgen) stmt(c *jctx, depth int, ind string) string {
 				continue
 			}
 			g.features["block"]++
-			bc := &jctx{sc: newScope(c.sc, false), labels: c.labels, privs: c.privs, thisOK: c.thisOK, strict: c.strict, inClass: c.inClass}
+			bc := &jctx{sc: newScope(c.sc, false), labels: c.labels, privs: c.privs, thisOK: c.thisOK, strict: c.strict, inClass: c.inClass, inWith: c.inWith}
 			return fmt.Sprintf("%s{\n%s%s}\n", ind, g.body(bc, depth+1, ind+"  ", g.r.Range(1, 3)), ind)
 		case 7: // try/catch with binding
 			if deep {
@@ -345,7 +364,7 @@ func (g *jsgen) stmt(c *jctx, depth int, ind string) string {
 			g.features["catch"]++
 			cs := newScope(c.sc, false)
 			cs.addLex(n)
-			bc := &jctx{sc: cs, labels: c.labels, privs: c.privs, thisOK: c.thisOK, strict: c.strict, inClass: c.inClass}
+			bc := &jctx{sc: cs, labels: c.labels, privs: c.privs, thisOK: c.thisOK, strict: c.strict, inClass: c.inClass, inWith: c.inWith}
 			return fmt.Sprintf("%stry { throw %s; } catch (%s) {\n%s%s}\n", ind, g.newID(), n, g.body(bc, depth+1, ind+"  ", g.r.Range(1, 2)), ind)
 		case 8: // for loops with their own scope
 			if deep {
@@ -364,7 +383,7 @@ func (g *jsgen) stmt(c *jctx, depth int, ind string) string {
 				fs.addLex(n)
 			}
 			bs := newScope(fs, false)
-			bc := &jctx{sc: bs, labels: c.labels, privs: c.privs, thisOK: c.thisOK, strict: c.strict, inClass: c.inClass}
+			bc := &jctx{sc: bs, labels: c.labels, privs: c.privs, thisOK: c.thisOK, strict: c.strict, inClass: c.inClass, inWith: c.inWith}
 			b := g.body(bc, depth+1, ind+"  ", g.r.Range(1, 2))
 			switch kind {
 			case 0:
@@ -414,16 +433,19 @@ func (g *jsgen) stmt(c *jctx, depth int, ind string) string {
 				continue
 			}
 			g.features["label"]++
-			bc := &jctx{sc: newScope(c.sc, false), labels: append(append([]string{}, c.labels...), n), privs: c.privs, thisOK: c.thisOK, strict: c.strict, inClass: c.inClass}
+			bc := &jctx{sc: newScope(c.sc, false), labels: append(append([]string{}, c.labels...), n), privs: c.privs, thisOK: c.thisOK, strict: c.strict, inClass: c.inClass, inWith: c.inWith}
 			b := g.body(bc, depth+1, ind+"  ", g.r.Range(1, 2))
 			return fmt.Sprintf("%s%s: {\n%s%s  if ($v(1)) break %s;\n%s  $p(\"unreachable\");\n%s}\n", ind, n, b, ind, n, ind, ind)
 		case 11: // with (sloppy scripts only)
-			if g.module || c.strict || c.inClass || deep || g.noEval {
+			if g.module || c.strict || c.inClass || deep || g.noWith {
 				continue
 			}
 			n := g.name()
+			if g.props && strings.HasSuffix(n, "_") {
+				continue // the with-object key would be mangled, the identifier inside the body cannot be
+			}
 			g.features["with"]++
-			bc := &jctx{sc: newScope(c.sc, false), labels: c.labels, strict: c.strict}
+			bc := &jctx{sc: newScope(c.sc, false), labels: c.labels, strict: c.strict, inWith: true}
 			return fmt.Sprintf("%swith ({ %s: %s }) {\n%s%s}\n", ind, n, g.newID(), g.body(bc, depth+1, ind+"  ", 1), ind)
 		case 12: // destructuring declarations
 			n1, n2 := g.name(), g.name()
@@ -436,11 +458,20 @@ func (g *jsgen) stmt(c *jctx, depth int, ind string) string {
 			return fmt.Sprintf("%slet { k: %s, l: [%s] } = { k: %s, l: [%s] };\n", ind, n1, n2, g.newID(), g.newID())
 		case 13: // assignment through a thunk (var-declared names only: assigning a const is a compile error)
 			var cand []string
+			shadowed := map[string]bool{} // names whose innermost binding is lexical (const, class, function-expression name ...)
 			for sc := c.sc; sc != nil; sc = sc.parent {
 				if sc.isFunc {
 					for n := range sc.vars {
-						cand = append(cand, n)
+						if !shadowed[n] && !sc.lex[n] {
+							cand = append(cand, n)
+						}
 					}
+				}
+				for n := range sc.lex {
+					shadowed[n] = true
+				}
+				for n := range sc.vars {
+					shadowed[n] = true
 				}
 			}
 			if len(cand) == 0 {
@@ -453,12 +484,21 @@ func (g *jsgen) stmt(c *jctx, depth int, ind string) string {
 			if deep {
 				continue
 			}
+			if !g.module && c.inClass {
+				continue // block function in class (strict) code of a sloppy script: recorded finding
+			}
 			n := g.name()
 			bs := newScope(c.sc, false)
 			// in sloppy mode the name may also be var-hoisted (Annex B): remember it as a var when that is possible
 			if !c.strict && !g.module {
+				if g.noFnInBlock || c.inWith {
+					continue
+				}
 				if t := c.sc.varTarget(); t.parent == nil && t.script && scriptTopExclude[n] {
 					continue
+				}
+				if !c.sc.canVar(n) {
+					continue // an enclosing block (catch parameter, let, class) binds the name: Annex B corner, recorded finding
 				}
 				if t := c.sc.varTarget(); t.params[n] {
 					continue // Annex B.3.3 parameter case: known finding, replayed from the fixed corpus
@@ -470,7 +510,7 @@ func (g *jsgen) stmt(c *jctx, depth int, ind string) string {
 			bs.addLex(n)
 			g.features["function-in-block"]++
 			bc := &jctx{sc: bs, labels: c.labels, strict: c.strict, inClass: c.inClass}
-			return fmt.Sprintf("%s{\n%s  function %s() {}\n%s  %s.$id = %s;\n%s%s}\n", ind, ind, n, ind, n, g.newID(), g.body(bc, depth+1, ind+"  ", 1), ind)
+			return fmt.Sprintf("%s{\n%s  function %s() {}\n%s  $s(%s, %s);\n%s%s}\n", ind, ind, n, ind, n, g.newID(), g.body(bc, depth+1, ind+"  ", 1), ind)
 		default:
 			return g.probe(c, ind)
 		}
@@ -567,7 +607,7 @@ func (g *jsgen) moduleFiles(nfiles int) []modFile {
 				fmt.Fprintf(&sb, "const %s = %s;\n", n, g.newID())
 			case 3:
 				ts.addVar(n)
-				fmt.Fprintf(&sb, "function %s() { return %d; }\n%s.$id = %s;\n", n, g.newTag(), n, g.newID())
+				fmt.Fprintf(&sb, "function %s() { return %d; }\n$s(%s, %s);\n", n, g.newTag(), n, g.newID())
 			default:
 				ts.addLex(n)
 				fmt.Fprintf(&sb, "class %s { static $id = %s; }\n", n, g.newID())
